@@ -22,8 +22,13 @@ next `'_'`).
    `reverse_pair_count`, `every_reverse_is_present_except`
 4. `add_keeps_labels_and_rates`, `add_params`
 5. `iers_conversion`, `iers_rounding_identity`, `iers_conversion_exact`
-6. `chain_triple_count`, `chain_consistency`, `chain_consistency_names`, `mem_triples`
+6. `chain_triple_count`, `chain_consistency`, `chain_consistency_names`, `mem_triples`,
+   `chain_rates_exact`, `chain_consistency_any_epoch`
 7. `epochs`, `epochless_names`, `epochs_dated`
+
+Layout: parsing; forcing combinators; definitions of the predicates; the kernel evaluations
+(`labels_check`, `table_check_A`, `table_check_B`, `chain_check_1..3`); then the theorems in the order
+above.
 
 Evaluation strategy (section `Force`): the kernel evaluates lazily and re-evaluates shared thunks, and
 string literals are expensive to take apart, so every checker is run through `forceEntries`, a
@@ -148,12 +153,9 @@ theorem forceEntries_eq (l : List Entry) (k : List Entry → Bool) : forceEntrie
 
 end Force
 
-/-! ## 1. Size -/
+/-! ## Definitions of the checked predicates -/
 
-/-- the catalogue has exactly 120 `Transformation` constants -/
-theorem catalogue_size : catalogue_Transformation.length = 120 := by decide +kernel
-
-/-! ## 2. Labels match the binding names -/
+/-! ### labels -/
 
 def labelsOkE (p : Entry) : Bool :=
   !p.a.isEmpty && !p.b.isEmpty && p.t.from_datum == upper p.a && p.t.to_datum == upper p.b
@@ -163,12 +165,287 @@ def labelsOk (e : String × Transformation) : Bool :=
   | none => false
   | some p => labelsOkE p
 
+example : upper (codes "itrf2014") = "ITRF2014" := by decide +kernel
+
+/-! ### reverse pairs -/
+
+/-- `q` is the reverse of `p`: 7 parameters and 7 rates negated, same epoch, labels swapped -/
+def IsNegOf (q p : Transformation) : Prop :=
+  q.from_datum = p.to_datum ∧ q.to_datum = p.from_datum ∧ q.ref_epoch = p.ref_epoch ∧
+  q.tx = -p.tx ∧ q.ty = -p.ty ∧ q.tz = -p.tz ∧ q.sc = -p.sc ∧
+  q.rx = -p.rx ∧ q.ry = -p.ry ∧ q.rz = -p.rz ∧
+  q.d_tx = -p.d_tx ∧ q.d_ty = -p.d_ty ∧ q.d_tz = -p.d_tz ∧ q.d_sc = -p.d_sc ∧
+  q.d_rx = -p.d_rx ∧ q.d_ry = -p.d_ry ∧ q.d_rz = -p.d_rz
+
+instance (q p : Transformation) : Decidable (IsNegOf q p) := by unfold IsNegOf; infer_instance
+
+/-- `e2` is named as the reverse of `e1` (`B_to_A[_s]` against `A_to_B[_s]`) -/
+def isReverseName (e2 e1 : Entry) : Bool := e2.a == e1.b && e2.b == e1.a && e2.suffix == e1.suffix
+
+def reverseCheck (es : List Entry) : Bool :=
+  es.all fun e1 => es.all fun e2 => !isReverseName e2 e1 || decide (IsNegOf e2.t e1.t)
+
+/-- the ordered pairs (`A_to_B[_s]`, `B_to_A[_s]`) present in the table -/
+def reversePairs (es : List Entry) : List (Entry × Entry) :=
+  es.flatMap fun e1 => (es.filter fun e2 => isReverseName e2 e1).map fun e2 => (e1, e2)
+
+/-- entries whose reverse is not in the table -/
+def unpaired (es : List Entry) : List Entry :=
+  es.filter fun e1 => !(es.any fun e2 => isReverseName e2 e1)
+
+/-! ### epochs -/
+
+def ratesZero (t : Transformation) : Prop :=
+  t.d_tx = 0 ∧ t.d_ty = 0 ∧ t.d_tz = 0 ∧ t.d_sc = 0 ∧ t.d_rx = 0 ∧ t.d_ry = 0 ∧ t.d_rz = 0
+
+instance (t : Transformation) : Decidable (ratesZero t) := by unfold ratesZero; infer_instance
+
+/-- `codes "itrf"` -/
+def itrfPrefix : List Nat := [105, 116, 114, 102]
+example : itrfPrefix = codes "itrf" := by decide +kernel
+
+/-- `codes "atrf"` -/
+def atrfPrefix : List Nat := [97, 116, 114, 102]
+example : atrfPrefix = codes "atrf" := by decide +kernel
+
+/-- the name starts with `"itrf"` -/
+def isItrf (l : List Nat) : Bool := itrfPrefix.isPrefixOf l
+
+/-- the name is an ITRF or ATRF realisation -/
+def isTrf (l : List Nat) : Bool := itrfPrefix.isPrefixOf l || atrfPrefix.isPrefixOf l
+
+def datedCheck (es : List Entry) : Bool :=
+  es.all fun e => (isTrf e.a || isTrf e.b) == e.t.ref_epoch.isSome
+
+/-! ### chains -/
+
+/-- unsuffixed sets between two ITRF realisations -/
+def itrfSets (es : List Entry) : List Entry :=
+  es.filter fun e => e.suffix.isEmpty && isItrf e.a && isItrf e.b
+
+/-- for a set `ab`, the sets `bcs` leaving its target and the sets `acs` leaving its source: all
+(`ab`, `bc`, `ac`) with `bc` and `ac` arriving at the same frame -/
+def triplesWith (ab : Entry) (bcs acs : List Entry) : List (Entry × Entry × Entry) :=
+  bcs.flatMap fun bc => (acs.filter fun ac => ac.b == bc.b).map fun ac => (ab, bc, ac)
+
+/-- the triples whose first member is in `part` -/
+def triplesPart (part s : List Entry) : List (Entry × Entry × Entry) :=
+  part.flatMap fun ab =>
+    triplesWith ab (s.filter fun bc => bc.a == ab.b) (s.filter fun ac => ac.a == ab.a)
+
+def triplesFrom (s : List Entry) : List (Entry × Entry × Entry) := triplesPart s s
+
+/-- all ordered triples (`A_to_B`, `B_to_C`, `A_to_C`) of unsuffixed ITRF sets, computed from the
+table (characterised by `mem_triples`) -/
+def triplesOf (es : List Entry) : List (Entry × Entry × Entry) := triplesFrom (itrfSets es)
+
+def triples : List (Entry × Entry × Entry) := triplesOf entries
+
+theorem mem_triplesFrom (s : List Entry) (x : Entry × Entry × Entry) :
+    x ∈ triplesFrom s ↔ x.1 ∈ s ∧ x.2.1 ∈ s ∧ x.2.2 ∈ s ∧
+      x.2.1.a = x.1.b ∧ x.2.2.a = x.1.a ∧ x.2.2.b = x.2.1.b := by
+  obtain ⟨ab, bc, ac⟩ := x
+  simp only [triplesFrom, triplesPart, triplesWith, List.mem_flatMap, List.mem_map, List.mem_filter,
+    beq_iff_eq, Prod.mk.injEq]
+  constructor
+  · rintro ⟨ab', hab, bc', ⟨hbc, h1⟩, ac', ⟨⟨hac, h2⟩, h3⟩, rfl, rfl, rfl⟩
+    exact ⟨hab, hbc, hac, h1, h2, h3⟩
+  · rintro ⟨hab, hbc, hac, h1, h2, h3⟩
+    exact ⟨ab, hab, bc, ⟨hbc, h1⟩, ac, ⟨⟨hac, h2⟩, h3⟩, rfl, rfl, rfl⟩
+
+theorem mem_triples (x : Entry × Entry × Entry) :
+    x ∈ triples ↔ x.1 ∈ itrfSets entries ∧ x.2.1 ∈ itrfSets entries ∧ x.2.2 ∈ itrfSets entries ∧
+      x.2.1.a = x.1.b ∧ x.2.2.a = x.1.a ∧ x.2.2.b = x.2.1.b :=
+  mem_triplesFrom _ x
+
+/-- years from `t`'s reference epoch to the target epoch (`Δdays / 365.25`) -/
+def years (target : Option (Int × Int × Int)) (t : Transformation) : ℚ :=
+  match target with
+  | some d => PyQ.dateDiffDays d t.ref_epoch / 365.25
+  | none => 0
+
+/-- a parameter moved by its own rate over `y` years -/
+def atEpoch (par rate y : ℚ) : ℚ := par + rate * y
+
+/-- published rounding: 0.15 mm = 0.00015 m; 0.015 ppb = 0.000015 ppm; 0.015 mas = 0.000015″ -/
+def tolT : ℚ := 0.00015
+def tolS : ℚ := 0.000015
+def tolR : ℚ := 0.000015
+
+/-- `|par(A→B) + par(B→C) − par(A→C)| ≤ tol` for the 7 parameters, each set moved by its own rates
+over `yab`, `ybc`, `yac` years, and for the 7 rates -/
+def ChainOkAt (ab bc ac : Transformation) (yab ybc yac : ℚ) : Prop :=
+  |atEpoch ab.tx ab.d_tx yab + atEpoch bc.tx bc.d_tx ybc - atEpoch ac.tx ac.d_tx yac| ≤ tolT ∧
+  |atEpoch ab.ty ab.d_ty yab + atEpoch bc.ty bc.d_ty ybc - atEpoch ac.ty ac.d_ty yac| ≤ tolT ∧
+  |atEpoch ab.tz ab.d_tz yab + atEpoch bc.tz bc.d_tz ybc - atEpoch ac.tz ac.d_tz yac| ≤ tolT ∧
+  |atEpoch ab.sc ab.d_sc yab + atEpoch bc.sc bc.d_sc ybc - atEpoch ac.sc ac.d_sc yac| ≤ tolS ∧
+  |atEpoch ab.rx ab.d_rx yab + atEpoch bc.rx bc.d_rx ybc - atEpoch ac.rx ac.d_rx yac| ≤ tolR ∧
+  |atEpoch ab.ry ab.d_ry yab + atEpoch bc.ry bc.d_ry ybc - atEpoch ac.ry ac.d_ry yac| ≤ tolR ∧
+  |atEpoch ab.rz ab.d_rz yab + atEpoch bc.rz bc.d_rz ybc - atEpoch ac.rz ac.d_rz yac| ≤ tolR ∧
+  |ab.d_tx + bc.d_tx - ac.d_tx| ≤ tolT ∧ |ab.d_ty + bc.d_ty - ac.d_ty| ≤ tolT ∧
+  |ab.d_tz + bc.d_tz - ac.d_tz| ≤ tolT ∧ |ab.d_sc + bc.d_sc - ac.d_sc| ≤ tolS ∧
+  |ab.d_rx + bc.d_rx - ac.d_rx| ≤ tolR ∧ |ab.d_ry + bc.d_ry - ac.d_ry| ≤ tolR ∧
+  |ab.d_rz + bc.d_rz - ac.d_rz| ≤ tolR
+
+/-- all three sets carry a date epoch, and the chain closes when all three are brought to `A→C`'s
+reference epoch by their own rates -/
+def ChainOk (ab bc ac : Transformation) : Prop :=
+  (∃ d, ab.ref_epoch = some d) ∧ (∃ d, bc.ref_epoch = some d) ∧ (∃ d, ac.ref_epoch = some d) ∧
+  ChainOkAt ab bc ac (years ac.ref_epoch ab) (years ac.ref_epoch bc) (years ac.ref_epoch ac)
+
+instance (o : Option (Int × Int × Int)) : Decidable (∃ d, o = some d) :=
+  match o with
+  | some d => isTrue ⟨d, rfl⟩
+  | none => isFalse (by rintro ⟨d, h⟩; cases h)
+
+instance (ab bc ac : Transformation) (yab ybc yac : ℚ) : Decidable (ChainOkAt ab bc ac yab ybc yac) := by
+  unfold ChainOkAt; infer_instance
+
+instance (ab bc ac : Transformation) : Decidable (ChainOk ab bc ac) := by
+  unfold ChainOk; infer_instance
+
+/-- `decide (|atEpoch p1 r1 y1 + atEpoch p2 r2 y2 - atEpoch p3 r3 y3| ≤ tol)`, every intermediate
+result computed once -/
+def closeB (p1 r1 y1 p2 r2 y2 p3 r3 y3 tol : ℚ) : Bool :=
+  forceRat (r1 * y1) fun a1 => forceRat (p1 + a1) fun b1 =>
+  forceRat (r2 * y2) fun a2 => forceRat (p2 + a2) fun b2 =>
+  forceRat (r3 * y3) fun a3 => forceRat (p3 + a3) fun b3 =>
+  forceRat (b1 + b2) fun c => forceRat (c - b3) fun m => decide (|m| ≤ tol)
+
+theorem closeB_iff (p1 r1 y1 p2 r2 y2 p3 r3 y3 tol : ℚ) :
+    closeB p1 r1 y1 p2 r2 y2 p3 r3 y3 tol = true ↔
+      |atEpoch p1 r1 y1 + atEpoch p2 r2 y2 - atEpoch p3 r3 y3| ≤ tol := by
+  simp only [closeB, forceRat_eq, atEpoch, decide_eq_true_eq]
+
+def closeRateB (r1 r2 r3 tol : ℚ) : Bool :=
+  forceRat (r1 + r2) fun c => forceRat (c - r3) fun m => decide (|m| ≤ tol)
+
+theorem closeRateB_iff (r1 r2 r3 tol : ℚ) : closeRateB r1 r2 r3 tol = true ↔ |r1 + r2 - r3| ≤ tol := by
+  simp only [closeRateB, forceRat_eq, decide_eq_true_eq]
+
+/-- `decide (ChainOk ab bc ac)` with the year differences and tolerances computed once -/
+def chainOkB (ab bc ac : Transformation) : Bool :=
+  decide (∃ d, ab.ref_epoch = some d) && (decide (∃ d, bc.ref_epoch = some d) &&
+  (decide (∃ d, ac.ref_epoch = some d) &&
+  forceRat (years ac.ref_epoch ab) fun yab => forceRat (years ac.ref_epoch bc) fun ybc =>
+  forceRat (years ac.ref_epoch ac) fun yac =>
+  forceRat tolT fun tT => forceRat tolS fun tS => forceRat tolR fun tR =>
+  (closeB ab.tx ab.d_tx yab bc.tx bc.d_tx ybc ac.tx ac.d_tx yac tT &&
+  (closeB ab.ty ab.d_ty yab bc.ty bc.d_ty ybc ac.ty ac.d_ty yac tT &&
+  (closeB ab.tz ab.d_tz yab bc.tz bc.d_tz ybc ac.tz ac.d_tz yac tT &&
+  (closeB ab.sc ab.d_sc yab bc.sc bc.d_sc ybc ac.sc ac.d_sc yac tS &&
+  (closeB ab.rx ab.d_rx yab bc.rx bc.d_rx ybc ac.rx ac.d_rx yac tR &&
+  (closeB ab.ry ab.d_ry yab bc.ry bc.d_ry ybc ac.ry ac.d_ry yac tR &&
+  (closeB ab.rz ab.d_rz yab bc.rz bc.d_rz ybc ac.rz ac.d_rz yac tR &&
+  (closeRateB ab.d_tx bc.d_tx ac.d_tx tT && (closeRateB ab.d_ty bc.d_ty ac.d_ty tT &&
+  (closeRateB ab.d_tz bc.d_tz ac.d_tz tT && (closeRateB ab.d_sc bc.d_sc ac.d_sc tS &&
+  (closeRateB ab.d_rx bc.d_rx ac.d_rx tR && (closeRateB ab.d_ry bc.d_ry ac.d_ry tR &&
+  closeRateB ab.d_rz bc.d_rz ac.d_rz tR)))))))))))))))
+
+theorem chainOkB_iff (ab bc ac : Transformation) : chainOkB ab bc ac = true ↔ ChainOk ab bc ac := by
+  simp only [chainOkB, forceRat_eq, Bool.and_eq_true, closeB_iff, closeRateB_iff, decide_eq_true_eq,
+    ChainOk, ChainOkAt]
+
+/-- the rates of a chain close exactly -/
+def RatesExact (ab bc ac : Transformation) : Prop :=
+  ab.d_tx + bc.d_tx = ac.d_tx ∧ ab.d_ty + bc.d_ty = ac.d_ty ∧ ab.d_tz + bc.d_tz = ac.d_tz ∧
+  ab.d_sc + bc.d_sc = ac.d_sc ∧
+  ab.d_rx + bc.d_rx = ac.d_rx ∧ ab.d_ry + bc.d_ry = ac.d_ry ∧ ab.d_rz + bc.d_rz = ac.d_rz
+
+instance (ab bc ac : Transformation) : Decidable (RatesExact ab bc ac) := by
+  unfold RatesExact; infer_instance
+
+def ratesExactCheck (s : List Entry) : Bool :=
+  (triplesFrom s).all fun x => decide (RatesExact x.1.t x.2.1.t x.2.2.t)
+
+def chainCheckPart (part s : List Entry) : Bool :=
+  (triplesPart part s).all fun x => chainOkB x.1.t x.2.1.t x.2.2.t
+
+theorem chainCheckPart_append (p1 p2 s : List Entry) :
+    chainCheckPart (p1 ++ p2) s = (chainCheckPart p1 s && chainCheckPart p2 s) := by
+  simp [chainCheckPart, triplesPart, List.flatMap_append, List.all_append]
+
+/-! ## The kernel evaluations -/
+
 theorem labels_check : catalogue_Transformation.all labelsOk = true := by
   have h : catalogue_Transformation.all (fun e => match parseEntry e with
       | none => false
       | some p => forceEntry p labelsOkE) = true := by decide +kernel
   simp only [forceEntry_eq] at h
   exact h
+
+/-- names of the entries without a reverse -/
+def unpairedNames : List (List Nat × List Nat × List Nat) :=
+  [(codes "atrf2014", codes "gda2020", []), (codes "itrf2020", codes "itrf2014", codes "_vel")]
+
+def tableCheckA (es : List Entry) : Bool :=
+  es.length == 120 && reverseCheck es && (reversePairs es).length == 118 &&
+  (unpaired es).map (fun e => (e.a, e.b, e.suffix)) == unpairedNames && datedCheck es
+
+theorem table_check_A : tableCheckA entries = true := by
+  have h : forceEntries entries tableCheckA = true := by decide +kernel
+  simpa only [forceEntries_eq] using h
+
+def tableCheckB (s : List Entry) : Bool :=
+  s.length == 92 && (triplesFrom s).length == 384 && ratesExactCheck s
+
+theorem table_check_B : tableCheckB (itrfSets entries) = true := by
+  have h : forceEntries entries (fun es => forceEntries (itrfSets es) tableCheckB) = true := by
+    decide +kernel
+  simpa only [forceEntries_eq] using h
+
+/-! the chain check is run in three parts (first member among the first 31, the next 31, the remaining
+ITRF sets) to keep each kernel evaluation short -/
+theorem chain_check_1 : chainCheckPart ((itrfSets entries).take 31) (itrfSets entries) = true := by
+  have h : forceEntries entries (fun es => forceEntries (itrfSets es) fun s =>
+      chainCheckPart (s.take 31) s) = true := by decide +kernel
+  simpa only [forceEntries_eq] using h
+
+theorem chain_check_2 :
+    chainCheckPart (((itrfSets entries).drop 31).take 31) (itrfSets entries) = true := by
+  have h : forceEntries entries (fun es => forceEntries (itrfSets es) fun s =>
+      chainCheckPart ((s.drop 31).take 31) s) = true := by decide +kernel
+  simpa only [forceEntries_eq] using h
+
+theorem chain_check_3 :
+    chainCheckPart (((itrfSets entries).drop 31).drop 31) (itrfSets entries) = true := by
+  have h : forceEntries entries (fun es => forceEntries (itrfSets es) fun s =>
+      chainCheckPart ((s.drop 31).drop 31) s) = true := by decide +kernel
+  simpa only [forceEntries_eq] using h
+
+theorem chain_check : chainCheckPart (itrfSets entries) (itrfSets entries) = true := by
+  have hs : itrfSets entries = (itrfSets entries).take 31 ++
+      (((itrfSets entries).drop 31).take 31 ++ ((itrfSets entries).drop 31).drop 31) := by
+    simp only [List.take_append_drop]
+  have h : chainCheckPart ((itrfSets entries).take 31 ++
+      (((itrfSets entries).drop 31).take 31 ++ ((itrfSets entries).drop 31).drop 31))
+      (itrfSets entries) = true := by
+    simp only [chainCheckPart_append, chain_check_1, chain_check_2, chain_check_3, Bool.and_self]
+  rwa [← hs] at h
+
+theorem table_A_parts : (entries.length = 120 ∧ reverseCheck entries = true ∧
+    (reversePairs entries).length = 118 ∧
+    (unpaired entries).map (fun e => (e.a, e.b, e.suffix)) = unpairedNames) ∧
+    datedCheck entries = true := by
+  have h := table_check_A
+  simp only [tableCheckA, Bool.and_eq_true, beq_iff_eq] at h
+  exact ⟨⟨h.1.1.1.1, h.1.1.1.2, h.1.1.2, h.1.2⟩, h.2⟩
+
+theorem table_B_parts : (itrfSets entries).length = 92 ∧ (triplesFrom (itrfSets entries)).length = 384 ∧
+    ratesExactCheck (itrfSets entries) = true := by
+  have h := table_check_B
+  simp only [tableCheckB, Bool.and_eq_true, beq_iff_eq] at h
+  exact ⟨h.1.1, h.1.2, h.2⟩
+
+/-! ## 1. Size -/
+
+/-- the catalogue has exactly 120 `Transformation` constants -/
+theorem catalogue_size : catalogue_Transformation.length = 120 := by decide +kernel
+
+/-- every catalogue entry parses, so `entries` is the whole catalogue -/
+theorem entries_length : entries.length = 120 := table_A_parts.1.1
+
+/-! ## 2. Labels match the binding names -/
 
 /-- every catalogue name has the form `A_to_B` or `A_to_B_suffix` (A, B non-empty) and the entry is
 labelled `from_datum = upper A`, `to_datum = upper B` -/
@@ -186,22 +463,7 @@ theorem labels_match_names : ∀ e ∈ catalogue_Transformation, ∃ p : Entry,
       beq_iff_eq, ht] at h
     exact ⟨p, hp, h.1.1.1, h.1.1.2, h.1.2, h.2⟩
 
-/-- every catalogue entry parses, so `entries` is the whole catalogue -/
-theorem entries_length : entries.length = 120 := by
-  have h : forceEntries entries (fun es => es.length == 120) = true := by decide +kernel
-  simpa [forceEntries_eq] using h
-
 /-! ## 3. Negation and reverse pairs -/
-
-/-- `q` is the reverse of `p`: 7 parameters and 7 rates negated, same epoch, labels swapped -/
-def IsNegOf (q p : Transformation) : Prop :=
-  q.from_datum = p.to_datum ∧ q.to_datum = p.from_datum ∧ q.ref_epoch = p.ref_epoch ∧
-  q.tx = -p.tx ∧ q.ty = -p.ty ∧ q.tz = -p.tz ∧ q.sc = -p.sc ∧
-  q.rx = -p.rx ∧ q.ry = -p.ry ∧ q.rz = -p.rz ∧
-  q.d_tx = -p.d_tx ∧ q.d_ty = -p.d_ty ∧ q.d_tz = -p.d_tz ∧ q.d_sc = -p.d_sc ∧
-  q.d_rx = -p.d_rx ∧ q.d_ry = -p.d_ry ∧ q.d_rz = -p.d_rz
-
-instance (q p : Transformation) : Decidable (IsNegOf q p) := by unfold IsNegOf; infer_instance
 
 /-- `-p` for EVERY transformation `p`: all parameters and rates negated, labels swapped, same epoch,
 same `tf_sd` -/
@@ -222,22 +484,12 @@ theorem neg_involutive_pyid0 (p : Transformation) (h : p.pyid = 0) :
 
 example : gda94_to_gda2020.pyid = 0 := rfl
 
-/-- `e2` is named as the reverse of `e1` (`B_to_A[_s]` against `A_to_B[_s]`) -/
-def isReverseName (e2 e1 : Entry) : Bool := e2.a == e1.b && e2.b == e1.a && e2.suffix == e1.suffix
-
-def reverseCheck (es : List Entry) : Bool :=
-  es.all fun e1 => es.all fun e2 => !isReverseName e2 e1 || decide (IsNegOf e2.t e1.t)
-
-theorem reverse_check : reverseCheck entries = true := by
-  have h : forceEntries entries reverseCheck = true := by decide +kernel
-  simpa only [forceEntries_eq] using h
-
 /-- in the parsed catalogue, whenever `A_to_B[_s]` and `B_to_A[_s]` are both present the second is the
 exact negation of the first -/
 theorem reverse_pairs_entries : ∀ e1 ∈ entries, ∀ e2 ∈ entries,
     e2.a = e1.b → e2.b = e1.a → e2.suffix = e1.suffix → IsNegOf e2.t e1.t := by
   intro e1 h1 e2 h2 ha hb hs
-  have h := List.all_eq_true.mp (List.all_eq_true.mp reverse_check e1 h1) e2 h2
+  have h := List.all_eq_true.mp (List.all_eq_true.mp table_A_parts.1.2.1 e1 h1) e2 h2
   simpa [isReverseName, ha, hb, hs] using h
 
 /-- the same for the catalogue itself: entries `(n1, t1)`, `(n2, t2)` with `n1 = A_to_B[_s]`,
@@ -249,27 +501,204 @@ theorem reverse_pairs : ∀ c1 ∈ catalogue_Transformation, ∀ c2 ∈ catalogu
   have := reverse_pairs_entries p1 (mem_entries h1 hp1) p2 (mem_entries h2 hp2) ha hb hs
   rwa [parseEntry_t hp1, parseEntry_t hp2] at this
 
-/-- the ordered pairs the previous theorems speak about -/
-def reversePairs (es : List Entry) : List (Entry × Entry) :=
-  es.flatMap fun e1 => (es.filter fun e2 => isReverseName e2 e1).map fun e2 => (e1, e2)
-
-/-- entries whose reverse is not in the catalogue -/
-def unpaired (es : List Entry) : List Entry :=
-  es.filter fun e1 => !(es.any fun e2 => isReverseName e2 e1)
-
 /-- 118 of the 120 entries have their reverse in the catalogue (59 pairs, both orders) -/
-theorem reverse_pair_count : (reversePairs entries).length = 118 := by
-  have h : forceEntries entries (fun es => (reversePairs es).length == 118) = true := by
-    decide +kernel
-  simpa [forceEntries_eq] using h
+theorem reverse_pair_count : (reversePairs entries).length = 118 := table_A_parts.1.2.2.1
 
 /-- the two without: `atrf2014_to_gda2020` and `itrf2020_to_itrf2014_vel` -/
 theorem every_reverse_is_present_except :
     (unpaired entries).map (fun e => (e.a, e.b, e.suffix)) =
-      [(codes "atrf2014", codes "gda2020", []), (codes "itrf2020", codes "itrf2014", codes "_vel")] := by
-  have h : forceEntries entries (fun es => (unpaired es).map (fun e => (e.a, e.b, e.suffix)) ==
-      [(codes "atrf2014", codes "gda2020", []), (codes "itrf2020", codes "itrf2014", codes "_vel")])
-      = true := by decide +kernel
-  simpa [forceEntries_eq] using h
+      [(codes "atrf2014", codes "gda2020", []), (codes "itrf2020", codes "itrf2014", codes "_vel")] :=
+  table_A_parts.1.2.2.2
+
+/-! ## 4. `__add__` (re-referencing to another epoch), real-number reading -/
+
+/-- years from `p`'s reference epoch to the date `d`, as `__add__` computes them
+(`(d - p.ref_epoch).days / 365.25`) -/
+noncomputable def yearsR (p : GenR.Constants.Transformation) (d : Int × Int × Int) : ℝ :=
+  PyR.dateDiffDays d p.ref_epoch / 365.25
+
+/-- `p + d` keeps the direction labels and all seven rates, and is referenced to `d` -/
+theorem add_keeps_labels_and_rates (p : GenR.Constants.Transformation) (d : Int × Int × Int) :
+    (p.add d).from_datum = p.from_datum ∧ (p.add d).to_datum = p.to_datum ∧
+    (p.add d).ref_epoch = some d ∧
+    (p.add d).d_tx = p.d_tx ∧ (p.add d).d_ty = p.d_ty ∧ (p.add d).d_tz = p.d_tz ∧
+    (p.add d).d_sc = p.d_sc ∧
+    (p.add d).d_rx = p.d_rx ∧ (p.add d).d_ry = p.d_ry ∧ (p.add d).d_rz = p.d_rz :=
+  ⟨rfl, rfl, rfl, rfl, rfl, rfl, rfl, rfl, rfl, rfl⟩
+
+theorem dec_36525 : PyR.dec 36525 2 = (365.25 : ℝ) := by norm_num [PyR.dec]
+
+/-- each parameter of `p + d` is `round(par + rate·Δ, 8)` -/
+theorem add_params (p : GenR.Constants.Transformation) (d : Int × Int × Int) :
+    (p.add d).tx = PyR.pround 8 (p.tx + p.d_tx * yearsR p d) ∧
+    (p.add d).ty = PyR.pround 8 (p.ty + p.d_ty * yearsR p d) ∧
+    (p.add d).tz = PyR.pround 8 (p.tz + p.d_tz * yearsR p d) ∧
+    (p.add d).sc = PyR.pround 8 (p.sc + p.d_sc * yearsR p d) ∧
+    (p.add d).rx = PyR.pround 8 (p.rx + p.d_rx * yearsR p d) ∧
+    (p.add d).ry = PyR.pround 8 (p.ry + p.d_ry * yearsR p d) ∧
+    (p.add d).rz = PyR.pround 8 (p.rz + p.d_rz * yearsR p d) := by
+  unfold yearsR
+  rw [← dec_36525]
+  exact ⟨rfl, rfl, rfl, rfl, rfl, rfl, rfl⟩
+
+/-! ## 5. IERS units and sign convention -/
+
+/-- `iers2trans`: translations mm → m, scale ppb → ppm, rotations mas → arc-seconds WITH THE SIGN
+REVERSED, rates likewise, each through `round(·, 8)`; labels and epoch passed on, no `tf_sd` -/
+theorem iers_conversion (f t : String) (ep : Option (Int × Int × Int))
+    (tx ty tz sc rx ry rz d_tx d_ty d_tz d_sc d_rx d_ry d_rz : ℚ) :
+    let r := iers2trans f t ep tx ty tz sc rx ry rz d_tx d_ty d_tz d_sc d_rx d_ry d_rz
+    r.from_datum = f ∧ r.to_datum = t ∧ r.ref_epoch = ep ∧ r.tf_sd = none ∧
+    r.tx = PyQ.pround 8 (tx / 1000) ∧ r.ty = PyQ.pround 8 (ty / 1000) ∧
+    r.tz = PyQ.pround 8 (tz / 1000) ∧ r.sc = PyQ.pround 8 (sc / 1000) ∧
+    r.rx = PyQ.pround 8 (-rx / 1000) ∧ r.ry = PyQ.pround 8 (-ry / 1000) ∧
+    r.rz = PyQ.pround 8 (-rz / 1000) ∧
+    r.d_tx = PyQ.pround 8 (d_tx / 1000) ∧ r.d_ty = PyQ.pround 8 (d_ty / 1000) ∧
+    r.d_tz = PyQ.pround 8 (d_tz / 1000) ∧ r.d_sc = PyQ.pround 8 (d_sc / 1000) ∧
+    r.d_rx = PyQ.pround 8 (-d_rx / 1000) ∧ r.d_ry = PyQ.pround 8 (-d_ry / 1000) ∧
+    r.d_rz = PyQ.pround 8 (-d_rz / 1000) :=
+  ⟨rfl, rfl, rfl, rfl, rfl, rfl, rfl, rfl, rfl, rfl, rfl, rfl, rfl, rfl, rfl, rfl, rfl, rfl⟩
+
+theorem roundHalfEven_intCast (k : ℤ) : PyQ.roundHalfEven (k : ℚ) = k := by
+  unfold PyQ.roundHalfEven
+  simp
+
+/-- for an input with at most 5 decimals the 8-decimal rounding is the identity, for both signs -/
+theorem iers_rounding_identity (k : ℤ) :
+    PyQ.pround 8 ((k : ℚ) / 10 ^ 5 / 1000) = (k : ℚ) / 10 ^ 5 / 1000 ∧
+    PyQ.pround 8 (-((k : ℚ) / 10 ^ 5) / 1000) = -((k : ℚ) / 10 ^ 5) / 1000 := by
+  have h1 : (k : ℚ) / 10 ^ 5 / 1000 * 10 ^ 8 = (k : ℚ) := by ring
+  have h2 : -((k : ℚ) / 10 ^ 5) / 1000 * 10 ^ 8 = ((-k : ℤ) : ℚ) := by push_cast; ring
+  constructor
+  · unfold PyQ.pround; rw [h1, roundHalfEven_intCast]; ring
+  · unfold PyQ.pround; rw [h2, roundHalfEven_intCast]; push_cast; ring
+
+/-- `x` has at most 5 decimals -/
+def Dec5 (x : ℚ) : Prop := ∃ k : ℤ, x = k / 10 ^ 5
+
+example : Dec5 (-(PyQ.dec 171 2)) := ⟨-171000, by norm_num [PyQ.dec]⟩
+
+theorem pround_dec5 {x : ℚ} (h : Dec5 x) :
+    PyQ.pround 8 (x / 1000) = x / 1000 ∧ PyQ.pround 8 (-x / 1000) = -x / 1000 := by
+  obtain ⟨k, rfl⟩ := h
+  exact iers_rounding_identity k
+
+/-- hence for IERS tables given to ≤ 5 decimals `iers2trans` is exactly ÷1000 and rotation-sign flip -/
+theorem iers_conversion_exact (f t : String) (ep : Option (Int × Int × Int))
+    (tx ty tz sc rx ry rz d_tx d_ty d_tz d_sc d_rx d_ry d_rz : ℚ)
+    (h1 : Dec5 tx) (h2 : Dec5 ty) (h3 : Dec5 tz) (h4 : Dec5 sc) (h5 : Dec5 rx) (h6 : Dec5 ry)
+    (h7 : Dec5 rz) (h8 : Dec5 d_tx) (h9 : Dec5 d_ty) (h10 : Dec5 d_tz) (h11 : Dec5 d_sc)
+    (h12 : Dec5 d_rx) (h13 : Dec5 d_ry) (h14 : Dec5 d_rz) :
+    let r := iers2trans f t ep tx ty tz sc rx ry rz d_tx d_ty d_tz d_sc d_rx d_ry d_rz
+    r.tx = tx / 1000 ∧ r.ty = ty / 1000 ∧ r.tz = tz / 1000 ∧ r.sc = sc / 1000 ∧
+    r.rx = -rx / 1000 ∧ r.ry = -ry / 1000 ∧ r.rz = -rz / 1000 ∧
+    r.d_tx = d_tx / 1000 ∧ r.d_ty = d_ty / 1000 ∧ r.d_tz = d_tz / 1000 ∧ r.d_sc = d_sc / 1000 ∧
+    r.d_rx = -d_rx / 1000 ∧ r.d_ry = -d_ry / 1000 ∧ r.d_rz = -d_rz / 1000 :=
+  ⟨(pround_dec5 h1).1, (pround_dec5 h2).1, (pround_dec5 h3).1, (pround_dec5 h4).1,
+   (pround_dec5 h5).2, (pround_dec5 h6).2, (pround_dec5 h7).2,
+   (pround_dec5 h8).1, (pround_dec5 h9).1, (pround_dec5 h10).1, (pround_dec5 h11).1,
+   (pround_dec5 h12).2, (pround_dec5 h13).2, (pround_dec5 h14).2⟩
+
+/-! ## 6. Chains of ITRF sets -/
+
+/-- the catalogue offers exactly 384 chains A→B→C with a direct set A→C between ITRF realisations
+(from 92 unsuffixed ITRF-to-ITRF sets) -/
+theorem chain_triple_count : triples.length = 384 ∧ (itrfSets entries).length = 92 :=
+  ⟨table_B_parts.2.1, table_B_parts.1⟩
+
+/-- every chain agrees with the direct set within the published rounding, in all 7 parameters (at the
+direct set's epoch) and all 7 rates -/
+theorem chain_consistency : ∀ x ∈ triples, ChainOk x.1.t x.2.1.t x.2.2.t := by
+  intro x hx
+  exact (chainOkB_iff _ _ _).mp (List.all_eq_true.mp chain_check x hx)
+
+/-- the same, spelled out by names: unsuffixed sets `A_to_B`, `B_to_C`, `A_to_C` with A, B, C all
+starting with "itrf" -/
+theorem chain_consistency_names : ∀ ab ∈ entries, ∀ bc ∈ entries, ∀ ac ∈ entries,
+    ab.suffix = [] → bc.suffix = [] → ac.suffix = [] →
+    isItrf ab.a = true → isItrf ab.b = true → isItrf bc.b = true →
+    bc.a = ab.b → ac.a = ab.a → ac.b = bc.b → ChainOk ab.t bc.t ac.t := by
+  intro ab hab bc hbc ac hac sab sbc sac iA iB iC h1 h2 h3
+  refine chain_consistency (ab, bc, ac) ((mem_triples _).mpr ⟨?_, ?_, ?_, h1, h2, h3⟩)
+  · simp [itrfSets, hab, sab, iA, iB]
+  · simp [itrfSets, hbc, sbc, h1, iB, iC]
+  · simp [itrfSets, hac, sac, h2, h3, iA, iC]
+
+example : triples ≠ [] := by
+  intro h; have := chain_triple_count.1; rw [h] at this; cases this
+
+
+/-- in every chain the seven rates close exactly -/
+theorem chain_rates_exact : ∀ x ∈ triples, RatesExact x.1.t x.2.1.t x.2.2.t := by
+  intro x hx
+  exact of_decide_eq_true (List.all_eq_true.mp table_B_parts.2.2 x hx)
+
+/-- when the rates close exactly, the misclosure of the parameters is the same at every target date -/
+theorem chainOkAt_date_independent {ab bc ac : Transformation} (hr : RatesExact ab bc ac)
+    (h1 : ∃ e, ab.ref_epoch = some e) (h2 : ∃ e, bc.ref_epoch = some e)
+    (h3 : ∃ e, ac.ref_epoch = some e) (d d' : Int × Int × Int) :
+    ChainOkAt ab bc ac (years (some d) ab) (years (some d) bc) (years (some d) ac) ↔
+    ChainOkAt ab bc ac (years (some d') ab) (years (some d') bc) (years (some d') ac) := by
+  obtain ⟨e1, he1⟩ := h1
+  obtain ⟨e2, he2⟩ := h2
+  obtain ⟨e3, he3⟩ := h3
+  have key : ∀ p1 p2 p3 r1 r2 r3 : ℚ, r1 + r2 = r3 →
+      atEpoch p1 r1 (years (some d) ab) + atEpoch p2 r2 (years (some d) bc)
+        - atEpoch p3 r3 (years (some d) ac) =
+      atEpoch p1 r1 (years (some d') ab) + atEpoch p2 r2 (years (some d') bc)
+        - atEpoch p3 r3 (years (some d') ac) := by
+    intro p1 p2 p3 r1 r2 r3 h
+    simp only [years, PyQ.dateDiffDays, he1, he2, he3, atEpoch]
+    push_cast
+    linear_combination (((Py.dateDays d : ℚ) - (Py.dateDays d' : ℚ)) / 365.25) * h
+  unfold ChainOkAt
+  rw [key _ _ _ _ _ _ hr.1, key _ _ _ _ _ _ hr.2.1, key _ _ _ _ _ _ hr.2.2.1,
+    key _ _ _ _ _ _ hr.2.2.2.1, key _ _ _ _ _ _ hr.2.2.2.2.1, key _ _ _ _ _ _ hr.2.2.2.2.2.1,
+    key _ _ _ _ _ _ hr.2.2.2.2.2.2]
+
+/-- hence every chain closes within the published rounding when the three sets are brought to ANY
+common date `d` (in particular every reference epoch occurring in the catalogue) -/
+theorem chain_consistency_any_epoch : ∀ x ∈ triples, ∀ d : Int × Int × Int,
+    ChainOkAt x.1.t x.2.1.t x.2.2.t (years (some d) x.1.t) (years (some d) x.2.1.t)
+      (years (some d) x.2.2.t) := by
+  intro x hx d
+  obtain ⟨h1, h2, h3, h⟩ := chain_consistency x hx
+  obtain ⟨d0, hd0⟩ := h3
+  rw [hd0] at h
+  exact (chainOkAt_date_independent (chain_rates_exact x hx) h1 h2 ⟨d0, hd0⟩ d d0).mpr h
+
+/-! ## 7. Reference epochs -/
+
+/-- an entry without a date epoch (Python: `ref_epoch=0`) has all seven rates 0 -/
+theorem epochs : ∀ e ∈ catalogue_Transformation, e.2.ref_epoch = none → ratesZero e.2 := by
+  have h : (catalogue_Transformation.all fun e =>
+      e.2.ref_epoch.isSome || decide (ratesZero e.2)) = true := by decide +kernel
+  intro e he hn
+  have := List.all_eq_true.mp h e he
+  simpa [hn] using this
+
+/-- the 14 entries without a date epoch: GDA94↔GDA2020 and the six AGD sets with their reverses -/
+theorem epochless_names :
+    (catalogue_Transformation.filter fun e => e.2.ref_epoch.isNone).map (·.1) =
+      ["gda94_to_gda2020", "gda2020_to_gda94", "agd84_to_gda94", "agd66_to_gda94",
+       "agd66_to_gda94_act", "agd66_to_gda94_tas", "agd66_to_gda94_vicnsw", "agd66_to_gda94_nt",
+       "gda94_to_agd84", "gda94_to_agd66", "gda94_to_agd66_act", "gda94_to_agd66_tas",
+       "gda94_to_agd66_vicnsw", "gda94_to_agd66_nt"] := by
+  decide +kernel
+
+/-- an entry has a date epoch exactly when one of its two frames is an ITRF/ATRF realisation: all
+sets built by `iers2trans`, the GDA94↔ITRF sets and the plate-motion sets ITRF2014/ATRF2014↔GDA2020 -/
+theorem epochs_dated : ∀ e ∈ entries,
+    (isTrf e.a = true ∨ isTrf e.b = true) ↔ ∃ d, e.t.ref_epoch = some d := by
+  intro e he
+  have h := List.all_eq_true.mp table_A_parts.2 e he
+  simp only [beq_iff_eq] at h
+  rw [← Option.isSome_iff_exists, ← h, Bool.or_eq_true]
+
+/-- `iers2trans` passes its epoch through -/
+theorem iers2trans_epoch (f t : String) (d : Int × Int × Int)
+    (tx ty tz sc rx ry rz d_tx d_ty d_tz d_sc d_rx d_ry d_rz : ℚ) :
+    (iers2trans f t (some d) tx ty tz sc rx ry rz d_tx d_ty d_tz d_sc d_rx d_ry d_rz).ref_epoch
+      = some d := rfl
 
 end GeodeVerif.C11
